@@ -21,23 +21,24 @@ import (
 
 // recCase: a chain with Recovery somewhere, a panic somewhere later, a request sequence (C15).
 type recCase struct {
-	Env    string      `json:"env"`                                        // development | production | test
-	Built  string      `json:"assembled_in_env,omitempty"`                 // the instance (incl. Recovery) is assembled while this environment is set, then the environment is switched to Env (serial cases only)
-	Pre    int         `json:"pre"`                                        // middleware placed before Recovery
-	Mid    []string    `json:"mid"`                                        // handlers between Recovery and the panic site: plain | next | write-next
-	Where  string      `json:"where"`                                      // route | action | notfound | group
-	Phase  string      `json:"phase"`                                      // before | after-header | after-body
-	Kind   string      `json:"kind"`                                       // string | error | runtime | struct | int | abort | dep | nilerr | neterr-* | slice | map | structslice | sliceerr (values of uncomparable types)
-	Accept string      `json:"accept,omitempty"`                           // request header: the body of the error response does not depend on it
-	Hdrs   [][2]string `json:"further_request_headers,omitempty"`          // client-controlled headers (addresses, hosts, debug switches): the error response does not depend on them either
-	Remote string      `json:"remote_addr,omitempty"`                      // Request.RemoteAddr: the peer may be the machine itself
-	Query  string      `json:"query,omitempty"`                            // raw query of the panicking requests
-	Buffer bool        `json:"buffering_writer_in_front,omitempty"`        // the first middleware (before Recovery) substitutes the http.ResponseWriter service by a buffer and releases it after Next(); Kind may also be nilerr (an error value whose Error method cannot run)
-	Method string      `json:"method,omitempty"`                           // GET (default) | HEAD: the error response of a HEAD request has the same status and no body
-	Deep   int         `json:"frames_below_the_panic,omitempty"`           // the panicking handler recurses this deep before it panics (the stack Recovery prints is that much longer)
-	Inner  bool        `json:"second_recovery_nearer_the_panic,omitempty"` // a second Recovery sits after the mid handlers, with one more Next()-calling middleware between the two: the panic stops at the inner one, so that middleware (placed before a Recovery) completes as well
-	Marker string      `json:"marker"`                                     // unique text carried by the panic value
-	Seq    []string    `json:"seq"`                                        // ok | panic …
+	Env    string      `json:"env"`                                          // development | production | test
+	OSEnv  string      `json:"FLAMEGO_ENV_in_process_environment,omitempty"` // serial cases: the variable the package read once when the process started is (re)set to this before the instance is assembled. The mode is what SetEnv last made it
+	Built  string      `json:"assembled_in_env,omitempty"`                   // the instance (incl. Recovery) is assembled while this environment is set, then the environment is switched to Env (serial cases only)
+	Pre    int         `json:"pre"`                                          // middleware placed before Recovery
+	Mid    []string    `json:"mid"`                                          // handlers between Recovery and the panic site: plain | next | write-next
+	Where  string      `json:"where"`                                        // route | action | notfound | group
+	Phase  string      `json:"phase"`                                        // before | after-header | after-body
+	Kind   string      `json:"kind"`                                         // string | error | runtime | struct | int | abort | dep | nilerr | neterr-* | slice | map | structslice | sliceerr (values of uncomparable types)
+	Accept string      `json:"accept,omitempty"`                             // request header: the body of the error response does not depend on it
+	Hdrs   [][2]string `json:"further_request_headers,omitempty"`            // client-controlled headers (addresses, hosts, debug switches): the error response does not depend on them either
+	Remote string      `json:"remote_addr,omitempty"`                        // Request.RemoteAddr: the peer may be the machine itself
+	Query  string      `json:"query,omitempty"`                              // raw query of the panicking requests
+	Buffer bool        `json:"buffering_writer_in_front,omitempty"`          // the first middleware (before Recovery) substitutes the http.ResponseWriter service by a buffer and releases it after Next(); Kind may also be nilerr (an error value whose Error method cannot run)
+	Method string      `json:"method,omitempty"`                             // GET (default) | HEAD: the error response of a HEAD request has the same status and no body
+	Deep   int         `json:"frames_below_the_panic,omitempty"`             // the panicking handler recurses this deep before it panics (the stack Recovery prints is that much longer)
+	Inner  bool        `json:"second_recovery_nearer_the_panic,omitempty"`   // a second Recovery sits after the mid handlers, with one more Next()-calling middleware between the two: the panic stops at the inner one, so that middleware (placed before a Recovery) completes as well
+	Marker string      `json:"marker"`                                       // unique text carried by the panic value
+	Seq    []string    `json:"seq"`                                          // ok | panic …
 }
 
 // c15Strict refuses status codes outside 100..999 the way net/http's own writer does: by panicking, before
@@ -170,6 +171,10 @@ func genRecCase(rng *rand.Rand, env string) *recCase {
 	c.Marker = fmt.Sprintf("MK%dZ", 100000+rng.Intn(900000))
 	if c.Kind == "int" {
 		c.Marker = fmt.Sprint(100000 + rng.Intn(900000))
+		if rng.Intn(2) == 0 {
+			// an int that happens to be a status code is a panic value like any other
+			c.Marker = []string{"403", "418", "404", "400", "401", "500", "503", "200", "204", "302", "999", "100", "0", "-1"}[rng.Intn(14)]
+		}
 	}
 	n := 1 + rng.Intn(4)
 	if rng.Intn(40) == 0 {
@@ -349,6 +354,18 @@ func judgeRec(w *core.W, c *recCase) {
 	if c.Built != "" {
 		flamego.SetEnv(flamego.EnvType(c.Built))
 	}
+	if c.OSEnv != "" {
+		prev, had := os.LookupEnv("FLAMEGO_ENV")
+		_ = os.Setenv("FLAMEGO_ENV", c.OSEnv)
+		defer func() {
+			if had {
+				_ = os.Setenv("FLAMEGO_ENV", prev)
+			} else {
+				_ = os.Unsetenv("FLAMEGO_ENV")
+			}
+		}()
+		w.Count("process-environment-variable-set-after-start")
+	}
 	f := flamego.NewWithLogger(io.Discard)
 	for i := 0; i < c.Pre; i++ {
 		i := i
@@ -515,6 +532,12 @@ func judgeRec(w *core.W, c *recCase) {
 		flamego.SetEnv(flamego.EnvType("staging")) // not one of the three environments: documented to be ignored
 		flamego.SetEnv(flamego.EnvType(""))
 		w.Count("environment-switched-after-assembly")
+		if c.OSEnv != "" {
+			// another instance is built later in the process (an admin listener, a test helper): building an instance
+			// decides nothing about the mode
+			_ = flamego.NewWithLogger(io.Discard)
+			_ = flamego.New()
+		}
 	}
 
 	serve := func(path string) recObs {
@@ -637,13 +660,16 @@ func runC15(r *core.Run) {
 		rng := r.Rand("rec-switch", i)
 		c := genRecCase(rng, envs[rng.Intn(3)])
 		c.Built = envs[rng.Intn(3)]
+		if rng.Intn(2) == 0 {
+			c.OSEnv = envs[rng.Intn(3)]
+		}
 		ws.Begin("recovery", c)
 		judgeRec(ws, c)
 	}
 	ws.Done()
 	ws.Merge()
 	flamego.SetEnv(orig)
-	for _, k := range []string{"environment-switched-after-assembly", "kind:string", "kind:error", "kind:runtime", "kind:struct", "kind:int", "kind:abort", "kind:dep", "kind:nilerr", "kind:neterr-epipe", "kind:neterr-reset", "kind:slice", "kind:map", "kind:structslice", "kind:sliceerr", "kind:bad-status-writeheader", "kind:bad-status-return", "kind:before-function-panics", "kind:long-cjk", "kind:line-directive", "method:HEAD", "deep-stack", "second-recovery-nearer-the-panic", "request-context-cancelled-while-unwinding", "buffering-writer-in-front-of-recovery", "phase:before", "phase:after-header", "phase:after-body", "where:route", "where:group", "where:action", "where:notfound", "depth:flat", "depth:nested-next", "follow-up-requests"} {
+	for _, k := range []string{"environment-switched-after-assembly", "process-environment-variable-set-after-start", "kind:string", "kind:error", "kind:runtime", "kind:struct", "kind:int", "kind:abort", "kind:dep", "kind:nilerr", "kind:neterr-epipe", "kind:neterr-reset", "kind:slice", "kind:map", "kind:structslice", "kind:sliceerr", "kind:bad-status-writeheader", "kind:bad-status-return", "kind:before-function-panics", "kind:long-cjk", "kind:line-directive", "method:HEAD", "deep-stack", "second-recovery-nearer-the-panic", "request-context-cancelled-while-unwinding", "buffering-writer-in-front-of-recovery", "phase:before", "phase:after-header", "phase:after-body", "where:route", "where:group", "where:action", "where:notfound", "depth:flat", "depth:nested-next", "follow-up-requests"} {
 		r.GateCounter(k, 100)
 	}
 	r.Gate("distinct_nontrivial", r.NonTrivialCount(), 1000)
